@@ -30,7 +30,7 @@ def run(ctx):
         "documents < 4 GiB (line_offsets are u32 in the code, Nat in the model)",
         "UTF-8 encoding only (the UTF-16 paths of Highlighter::highlight are not exercised)",
     ]
-    ctx.prove(["TsVerif.C17.Props"], "TsVerif/C17/Audit.lean")
+    ctx.prove(["TsVerif.C17.Props", "TsVerif.C17.Round11", "TsVerif.C17.Round11b"], "TsVerif/C17/Audit.lean")
     driver = ctx.build_driver("tsv-c17")
     explorer = ctx.cargo_bin("c17")
     # optional: with hooks/C17-reexport.diff in /repo the explorer also calls the REAL private intersect_ranges.
